@@ -21,7 +21,7 @@ CONSTANTS Conns,        \* connection incarnations (each id connects at most onc
           InitSerial,   \* initial value of the broker's call serial counter (wrap-around configurations)
           Senders,      \* connections that send the free messages (all of Conns, or e.g. only the owner of the scripted entity)
           PoolKinds,    \* which cookies the generator uses: subset of {"live", "dead", "never"}
-          ScriptSel,    \* name of the deterministic prefix of inputs ("none", "svc", "chan", "lst", "lstf")
+          ScriptSel,    \* name of the deterministic prefix of inputs ("none", "svc", "chan", "lst", "lstf", "pend", "pend2", "est1" / "est5" / "estM", "sub" / "suball")
           V0, V1        \* versions of the scripted connections 0 and 1
 
 O == INSTANCE Obs
@@ -85,6 +85,20 @@ Script ==
             MsgEv(1, [k |-> "CreateObject", serial |-> 0, uuid |-> 101]),
             MsgEv(0, [k |-> "CreateBusListener", serial |-> 0]),
             MsgEv(0, [k |-> "AddBusListenerFilter", cookie |-> 2, filter |-> [ft |-> "obj", o |-> 0, s |-> 0]]) >>
+    [] ScriptSel \in {"est1", "est5", "estM"} ->   \* as "chan", and connection 1 has claimed the receiver with capacity 1 / 5 / the maximum: the channel is established
+         << [t |-> "new", c |-> 0, ver |-> V0],
+            [t |-> "new", c |-> 1, ver |-> V1],
+            MsgEv(0, [k |-> "CreateChannel", serial |-> 0, end |-> "Sender", cap |-> CapZero]),
+            MsgEv(1, [k |-> "ClaimChannelEnd", serial |-> 0, cookie |-> 1, end |-> "Receiver",
+                      cap |-> CASE ScriptSel = "est1" -> <<0, 1>> [] ScriptSel = "est5" -> <<1, 1>> [] OTHER -> <<3, 3>>]) >>
+    [] ScriptSel \in {"sub", "suball"} ->          \* as "svc", and connection 1 is subscribed to event 0 / to all events of the service
+         << [t |-> "new", c |-> 0, ver |-> V0],
+            MsgEv(0, [k |-> "CreateObject", serial |-> 0, uuid |-> 101]),
+            SvcMsg,
+            [t |-> "new", c |-> 1, ver |-> V1],
+            IF ScriptSel = "sub"
+              THEN MsgEv(1, [k |-> "SubscribeEvent", svc |-> 2, ev |-> 0, has |-> TRUE, serial |-> 0])
+              ELSE MsgEv(1, [k |-> "SubscribeAllEvents", svc |-> 2, has |-> TRUE, serial |-> 0]) >>
     [] OTHER -> << >>
 ScriptConns == {Script[i].c : i \in {i \in 1..Len(Script) : Script[i].t = "new"}}
 NoRec == [t |-> "none"]
